@@ -878,17 +878,18 @@ func (fr *Frame) topFrame() *Frame {
 
 func (ex *Exec) putEdge(fr *Frame, from, to *ssa.BasicBlock, st *State) {
 	key := [2]int{from.Index, to.Index}
-	if fr.li.isBack[key] {
-		fr.backStates[to] = append(fr.backStates[to], st)
-		fr.backSrc[to] = append(fr.backSrc[to], from)
-		return
-	}
-	// loop exits
+	// loop exits (an edge that leaves an inner loop may at the same time be a back edge of an
+	// enclosing loop: `for a() { for b() {} }`; it is an exit of the inner one all the same)
 	for h, body := range fr.li.body {
 		if body[from] && !body[to] {
 			fr.exitStates[h] = append(fr.exitStates[h], st)
 			fr.exitSrc[h] = append(fr.exitSrc[h], from)
 		}
+	}
+	if fr.li.isBack[key] {
+		fr.backStates[to] = append(fr.backStates[to], st)
+		fr.backSrc[to] = append(fr.backSrc[to], from)
+		return
 	}
 	if old, ok := fr.edge[key]; ok {
 		// two edges between the same blocks (if with identical successors)
